@@ -21,3 +21,5 @@ if HAVE_Z3:
     from . import l_tracks       # noqa: F401
 from . import c_midifile         # noqa: F401
 from . import b_midifile         # noqa: F401
+from . import c_files            # noqa: F401
+from . import b_files            # noqa: F401
